@@ -84,8 +84,16 @@ def succs(t):
     return []
 
 
+# free-function spellings of the same std operation are read as the method spelling the rules are written against
+_CALLEE_ALIASES = {
+    "core::cmp::min": "core::cmp::Ord::min",
+    "core::cmp::max": "core::cmp::Ord::max",
+}
+
+
 def callee_of(t):
-    return t["resolved"] or t["callee"]
+    c = t["resolved"] or t["callee"]
+    return _CALLEE_ALIASES.get(c, c)
 
 
 def is_panic_call(t):
